@@ -153,6 +153,66 @@ def apply_shape(ctx, rule='A5'):
            'connector and target index -> target connector', short(src[0], 120) if src else 'missing')
 
 
+def _members_tracked(ctx, fn):
+    """A loop `for K, V in <derivation map>.items()` in the unit whose body puts K and the elements of V into a list
+    (append / extend / +=, directly or through inner loops over V or over a concatenation with V), where the map is
+    the result of get_conn_node_derivations (or a helper parameter bound to it)."""
+    unit = unit_functions(ctx.prog, fn)
+    maps = {}       # function key -> names holding the derivation map
+    for u in unit:
+        for a in walk_fn(u):
+            if isinstance(a, ast.Assign) and isinstance(a.value, ast.Call) and \
+                    call_name(a.value) == 'get_conn_node_derivations' and isinstance(a.targets[0], ast.Name):
+                maps.setdefault(u.key, set()).add(a.targets[0].id)
+    if not maps:
+        return False, 'no call of get_conn_node_derivations in the unit'
+    for u in unit:      # helper parameters bound to the map
+        for c in walk_fn(u):
+            if not isinstance(c, ast.Call):
+                continue
+            callee = next((h for h in unit if h.node.name == call_name(c)), None)
+            if callee is None or callee is u:
+                continue
+            hp = [q for q in callee.params if q not in ('self', 'cls')]
+            for q, a in list(zip(hp, c.args)) + [(k.arg, k.value) for k in c.keywords if k.arg]:
+                if isinstance(a, ast.Name) and a.id in maps.get(u.key, ()):
+                    maps.setdefault(callee.key, set()).add(q)
+    for u in unit:
+        for lp in walk_fn(u):
+            if not (isinstance(lp, ast.For) and isinstance(lp.iter, ast.Call) and
+                    isinstance(lp.iter.func, ast.Attribute) and lp.iter.func.attr == 'items' and
+                    isinstance(lp.iter.func.value, ast.Name) and lp.iter.func.value.id in maps.get(u.key, ()) and
+                    isinstance(lp.target, ast.Tuple) and len(lp.target.elts) == 2 and
+                    all(isinstance(e, ast.Name) for e in lp.target.elts)):
+                continue
+            tags = {lp.target.elts[0].id: {'key'}, lp.target.elts[1].id: {'members'}}
+
+            def tag_of(e):
+                out = set()
+                for x in ast.walk(e):
+                    if isinstance(x, ast.Name):
+                        out |= tags.get(x.id, set())
+                return out
+            got = set()
+            for _ in range(3):
+                for x in ast.walk(lp):
+                    if isinstance(x, ast.For) and x is not lp:
+                        for nm in [t.id for t in ast.walk(x.target) if isinstance(t, ast.Name)]:
+                            tags[nm] = tags.get(nm, set()) | tag_of(x.iter)
+                    elif isinstance(x, ast.Assign) and isinstance(x.targets[0], ast.Name):
+                        tags[x.targets[0].id] = tags.get(x.targets[0].id, set()) | tag_of(x.value)
+            for x in ast.walk(lp):
+                if isinstance(x, ast.Call) and isinstance(x.func, ast.Attribute) and \
+                        x.func.attr in ('append', 'extend') and x.args:
+                    got |= tag_of(x.args[0])
+                elif isinstance(x, ast.AugAssign) and isinstance(x.op, ast.Add):
+                    got |= tag_of(x.value)
+            if got >= {'key', 'members'}:
+                return True, f'{u.qualname} L{lp.lineno}: connectors and members collected'
+            return False, f'{u.qualname} L{lp.lineno}: only {sorted(got)} of the derivation map reach the list'
+    return False, 'no loop over the items of the derivation map'
+
+
 def existence_patterns(ctx, rule='A5p'):
     fn = ctx.fn(f'{NODES}:ConnectionChoiceNode.get_assignment_encoding_args')
     ep = fn.nested.get('_exist_process')
@@ -185,9 +245,10 @@ def existence_patterns(ctx, rule='A5p'):
         and 'existence_map[existence_map == i_exist] = i_pattern' in tt
     ctx.ob(rule, fkey(fn, rule, 'scenario-to-pattern-map'), ok, fn.where,
            'every scenario is mapped to the index of its (de-duplicated) existence pattern', '')
-    ok = 'for deriving_node in deriving_conn_nodes' in tt and 'derivation_nodes = self.get_conn_node_derivations(dsg.graph, conn_nodes)' in tt
+    ok, detail = _members_tracked(ctx, fn)
     ctx.ob(rule, fkey(fn, rule, 'members-tracked'), ok, fn.where,
-           'the members of grouping connectors take part in the existence table', '')
+           'the members of grouping connectors take part in the existence table: the flat connector list is filled '
+           'from both the keys (connectors) and the values (their members) of the derivation map', detail)
     ta = ctx.fn(f'{NODES}:ConnectionChoiceNode.to_assign_node')
     t2 = FnText(ctx, ta)
     ok = 'nr_conn_list=deg_list' in t2 and 'min_conn=deg_min' in t2 and 'max_conn=deg_max' in t2 and \
